@@ -67,7 +67,8 @@ fn thresholds() -> Vec<f32> {
 /// Quick stratum: every f32 in [0,1] whose low 8 mantissa bits are zero (every binade incl.
 /// subnormals) plus +-256-ulp neighbourhoods of 0, 1 and every branch threshold.
 pub fn quick_domain() -> Vec<u32> {
-    let mut v: Vec<u32> = (0..=ONE_BITS >> 8).map(|i| i << 8).collect();
+    let sh = if light() { 12 } else { 8 };
+    let mut v: Vec<u32> = (0..=ONE_BITS >> sh).map(|i| i << sh).collect();
     for t in thresholds() {
         let b = t.to_bits() as i64;
         for d in -256i64..=256 {
